@@ -109,6 +109,9 @@ GEOMS = [
     lambda: data.MultiPoint(coordinates=[[0.1, 1.0], [0.0, 0.0]]),
     lambda: data.MultiLineString(coordinates=[[[0.1, 100.0], [0.2, 300.0]], [[1.0, 1.0], [3.0, 2.0]]]),
     lambda: data.MultiPolygon(coordinates=[[[[0.0, 0.0], [1.0, 0.0], [1.0, 1.0], [0.0, 0.0]]], [[[2.0, 2.0], [3.0, 2.0], [3.0, 3.0], [2.0, 2.0]]]]),
+    # a line whose first and last vertices have the SAME time (a contour returning to its start time): already in normal form
+    lambda: data.LineString(coordinates=[[0.5, 100.0], [0.9, 200.0], [0.5, 300.0]]),
+    lambda: data.BoundingBox(coordinates=[1.0, 0.0, 1.0, 0.0]),
 ]
 
 
@@ -222,7 +225,8 @@ def build_world(case, audio_root: Path):
             # distinct tags that share a key or a value with another tag (the registry keys tags by (label, value))
             n = int("".join(ch for ch in i if ch.isdigit()) or 0)
             tkey, tval = "key_" + "abbca"[n % 5] + str(n // 5), ["v one", "v one", "välue 2", "v one", "välue 2"][n % 5]
-            o = data.Tag(term=data.term_from_key(tkey), value=tval)
+            # every tag's term has the SAME name and its own label: the document format identifies a tag by (label, value)
+            o = data.Tag(term=data.Term(name="verif:shared_name", label=tkey, definition="shared name, own label"), value=tval)
             assert (tkey, tval) not in rev, "tag catalogue must be injective"
             rev[(tkey, tval)] = i
         elif k == "recording":
@@ -239,7 +243,9 @@ def build_world(case, audio_root: Path):
             st = [0.0, 0.5, 1.25][_h(i) % 3]
             o = data.Clip(uuid=u, recording=objs[d["recording"]], start_time=st, end_time=st + [0.0, 1.0, 3.3][_h(i, "e") % 3], **kw)
         elif k == "sound_event":
-            g = GEOMS[_h(i) % len(GEOMS)] if pat != "min" else GEOMS[int(i[2:] or 0) % len(GEOMS)]
+            # which geometry an event gets varies with the case (switch set), so every kind meets every position
+            salt = ",".join(sorted(map(str, case.get("sw", [])))) + case["ctype"]
+            g = GEOMS[_h(i, salt) % len(GEOMS)] if pat != "min" else GEOMS[(int("".join(ch for ch in i if ch.isdigit()) or 0) + _h(salt)) % len(GEOMS)]
             kw = scalars(data.SoundEvent, i, pat, skip=("recording", "geometry"))
             o = data.SoundEvent(uuid=u, recording=objs[d["recording"]], geometry=g() if g else None, **kw)
         elif k == "sequence":
